@@ -8,7 +8,8 @@ from . import vlib, bigstep
 from .vlib import Inconclusive
 
 ALL_DEV = ["R14", "R15"]
-STIM = ["Begin", "Answer", "badtag", "badtype", "badbody", "cut", "garbage", "Close", "FailWrites", "HoldWrites"]
+STIM = ["Begin", "Answer", "badtag", "badtype", "badbody", "cut", "garbage", "Close", "FailWrites", "HoldWrites", "HoldReturns",
+        "ReleaseReturns"]
 
 INVARIANTS = ["DistinctTags", "OwnReply", "NoHang"]
 
@@ -18,7 +19,7 @@ def cfg(callers, twice, maxbad, holds, fixed, invariants=(), props=(), dump=Fals
          "  Callers = {%s}" % ", ".join(str(i) for i in range(1, callers + 1)),
          "  Objs = {1, 2, 3}", "  MaxBad = %d" % maxbad,
          "  Twice = {%s}" % ", ".join(str(i) for i in twice),
-         "  Holds = %s" % ("TRUE" if holds else "FALSE"),
+         "  Holds = {%s}" % ", ".join('"%s"' % h for h in (holds if isinstance(holds, (list, tuple)) else (["pre"] if holds else []))),
          "  Fixed = {%s}" % ", ".join('"%s"' % f for f in fixed), "VIEW View", "CHECK_DEADLOCK FALSE"]
     if dump:
         l.append("ACTION_CONSTRAINT EdgeDump")
@@ -38,12 +39,15 @@ MC = {
     "3callers-1bad": (3, [], 1, False),
     "3callers-third-twice": (3, [3], 0, False),
     "2callers-hold-1bad": (2, [2], 1, True),
+    "3callers-holdret": (3, [], 0, ["post"]),
 }
 GEN = {
     "2callers-1bad": (2, [], 1, False),
     "2callers-twice-1bad": (2, [2], 1, False),
     "3callers-faults": (3, [], 0, False),
     "2callers-hold": (2, [2], 0, True),
+    # a write that delivers its frame but returns late: the reply can be read before the sender resumes
+    "2callers-holdret": (2, [2], 0, ["post"]),
 }
 
 # witness of the fixed finding R14 (TLC counterexample of NoHang with the old behaviour), as a harness script
@@ -107,7 +111,7 @@ def run(tier, seed):
             trans += r.get("generated", 0)
             runs.append({"config": name, "distinct": r.get("distinct"), "generated": r.get("generated"), "wall_s": round(r["wall_s"], 1),
                          "invariants": INVARIANTS})
-        gens = ["2callers-1bad", "2callers-hold"] if tier == "quick" else list(GEN)
+        gens = ["2callers-1bad", "2callers-hold", "2callers-holdret"] if tier == "quick" else list(GEN)
         for name in gens:
             c = GEN[name]
             out = os.path.join(s, "edges-%s.ndjson" % name)
